@@ -412,31 +412,45 @@ Proof. unfold endedb. apply existsb_app. Qed.
 (* ---- SAFETY, every dcop, every schedule, every moment: when AgentsMgt orders the agents to
    stop (other than on a stop request = timeout / external stop), every DPOP computation has
    finished and the value table already holds, for every computation, the value it selected *)
+Lemma ended_app_l t1 t2 n : ended t1 n -> ended (t1 ++ t2) n.
+Proof. intros (a & en & H). exists a, en. apply in_or_app. auto. Qed.
+
 Theorem stop_sound P L c sched tr e en ag :
   link_ok P L c ->
   let r := Net.run (dpop_proto P) sched in
   transport P L (snd r) (tr ++ [(e, en)]) ->
-  e <> EStopReq -> In (OStop ag) (snd (M_Orch.step c (M_Orch.run c tr) en e)) ->
+  (forall en', ~ In (EStopReq, en') (tr ++ [(e, en)])) ->
+  In (OStop ag) (snd (M_Orch.step c (M_Orch.run c tr) en e)) ->
   forall x, In x (tree_ids P) ->
     s_fin (w_st (nodes (fst r) x)) = true /\
     slookup (lk_name L x) (reported_assignment (M_Orch.run c tr)) = Some (chosen (fst r) x).
 Proof.
-  intros [Linj Lnodes] r [Tf To] Hne Hstop x Hx.
+  intros [Linj Lnodes] r [Tf To] Hnsr Hstop x Hx.
+  assert (Hne : e <> EStopReq).
+  { intros ->. apply (Hnsr en). apply in_or_app. right. left. reflexivity. }
   apply orch_finishes_iff_all_ended_l in Hstop; auto.
-  destruct Hstop as (_ & a0 & x0 & He & Hall). subst e.
+  assert (Hall : forall n, In n (g_nodes c) -> ended (tr ++ [(e, en)]) n).
+  { destruct Hstop as [(_ & a0 & x0 & He & Hall)|(He & p & e' & en' & s & Htr & Hs)]; [exact Hall|].
+    destruct Hs as [->|(a0 & x0 & -> & Hall)].
+    - exfalso. apply (Hnsr en'). apply in_or_app. left. rewrite Htr. apply in_or_app. right. left. reflexivity.
+    - intros n Hn. specialize (Hall n Hn). rewrite Htr.
+      change (p ++ (EEnd a0 x0, en') :: s) with (p ++ [(EEnd a0 x0, en')] ++ s).
+      rewrite app_assoc. apply ended_app_l. apply ended_app_l. exact Hall. }
+  assert (Ht : cproj (lk_name L x) [(e, en)] = [] \/
+               exists a0 x0, cproj (lk_name L x) [(e, en)] = [EEnd a0 x0]).
+  { destruct Hstop as [(_ & a0 & x0 & -> & _)|(-> & _)].
+    - unfold cproj. simpl. destruct (String.eqb x0 (lk_name L x)); eauto.
+    - left. reflexivity. }
   assert (Hn : In (lk_name L x) (g_nodes c)) by (rewrite Lnodes; now apply in_map).
   specialize (Hall _ Hn). apply ended_cproj in Hall. destruct Hall as (a & Hin).
   destruct (Tf x Hx) as (rest & Heq).
   rewrite orch_reports_last_values_l, last_value_cproj.
   rewrite cproj_app in Hin, Heq.
   destruct (posted_cases P L sched x) as [(Hf & Hp)|(v & k & Hf & Hv & Hp)]; fold r in Hf, Hp.
-  - exfalso. rewrite Hp in Heq. destruct (cproj (lk_name L x) tr ++ cproj (lk_name L x) [(EEnd a0 x0, en)]);
+  - exfalso. rewrite Hp in Heq. destruct (cproj (lk_name L x) tr ++ cproj (lk_name L x) [(e, en)]);
       [destruct Hin|discriminate].
   - fold r in Hv. split; [exact Hf|]. unfold chosen. rewrite Hv. rewrite Hp in Heq.
-    assert (Ht : cproj (lk_name L x) [(EEnd a0 x0, en)] = [] \/
-                 cproj (lk_name L x) [(EEnd a0 x0, en)] = [EEnd a0 x0]).
-    { unfold cproj. simpl. destruct (String.eqb x0 (lk_name L x)); auto. }
-    destruct (cproj (lk_name L x) tr) as [|q1 [|q2 [|q3 q]]]; destruct Ht as [Ht|Ht]; rewrite Ht in *;
+    destruct (cproj (lk_name L x) tr) as [|q1 [|q2 [|q3 q]]]; destruct Ht as [Ht|(a0 & x0 & Ht)]; rewrite Ht in *;
       simpl in *; inversion Heq; subst; try reflexivity; try discriminate;
       repeat (destruct Hin as [Hin|Hin]; try discriminate); try contradiction.
 Qed.
@@ -458,7 +472,8 @@ Theorem stop_happens P L c sched tr :
   complete P (fst r) -> delivered P L (snd r) tr ->
   exists tr1 a x en tr2, tr = tr1 ++ (EEnd a x, en) :: tr2 /\
     (forall ag, In (OStop ag) (snd (M_Orch.step c (M_Orch.run c tr1) en (EEnd a x))) <-> In ag (e_agents en)) /\
-    (forall p e' en' s ag, tr1 = p ++ (e', en') :: s -> e' <> EStopReq ->
+    (forall p e' en' s ag, tr1 = p ++ (e', en') :: s ->
+        (forall en'', ~ In (EStopReq, en'') (p ++ [(e', en')])) ->
         ~ In (OStop ag) (snd (M_Orch.step c (M_Orch.run c p) en' e'))).
 Proof.
   intros Hv [Linj Lnodes] Hne r Hc [Hd _].
@@ -480,14 +495,25 @@ Proof.
     specialize (Hall n Hn). apply endedb_ended in Hall. rewrite endedb_snoc, Hf in Hall. simpl in Hall.
     destruct e; simpl in Hall; try discriminate. eauto. }
   destruct He as (a & x & ->). exists p, a, x, en, s. split; auto. split.
-  - intros ag. rewrite orch_finishes_iff_all_ended_l by discriminate. split; [tauto|].
-    intros Hag. split; auto. exists a, x. auto.
-  - intros p' e' en' s' ag -> Hne' Hstop.
-    apply orch_finishes_iff_all_ended_l in Hstop; auto. destruct Hstop as (_ & _ & _ & _ & Hall').
+  - intros ag. rewrite orch_finishes_iff_all_ended_l by discriminate. split.
+    + intros [[Hag _]|[H _]]; [exact Hag|discriminate].
+    + intros Hag. left. split; auto. exists a, x. auto.
+  - intros p' e' en' s' ag -> Hnsr Hstop.
+    assert (Hne' : e' <> EStopReq).
+    { intros ->. apply (Hnsr en'). apply in_or_app. right. left. reflexivity. }
+    apply orch_finishes_iff_all_ended_l in Hstop; auto.
+    assert (Hq : exists t1 t2, p' ++ (e', en') :: s' = t1 ++ t2 /\
+                 forall n, In n (g_nodes c) -> ended t1 n).
+    { destruct Hstop as [(_ & _ & _ & _ & Hall')|(_ & p2 & e2 & en2 & s2 & Hp2 & Hs2)].
+      - exists (p' ++ [(e', en')]), s'. split; auto. rewrite <- app_assoc. reflexivity.
+      - destruct Hs2 as [->|(a2 & x2 & -> & Hall2)].
+        + exfalso. apply (Hnsr en2). apply in_or_app. left. rewrite Hp2. apply in_or_app. right. left. reflexivity.
+        + exists (p2 ++ [(EEnd a2 x2, en2)]), (s2 ++ (e', en') :: s'). split; auto.
+          rewrite Hp2. rewrite <- !app_assoc. reflexivity. }
+    destruct Hq as (t1 & t2 & Heq & Hall').
     assert (Q (p' ++ (e', en') :: s') = true); [|congruence].
     unfold Q. apply forallb_forall. intros n Hn. specialize (Hall' n Hn). apply endedb_ended in Hall'.
-    change (p' ++ (e', en') :: s') with (p' ++ [(e', en')] ++ s'). rewrite app_assoc, endedb_app, Hall'.
-    reflexivity.
+    rewrite Heq, endedb_app, Hall'. reflexivity.
 Qed.
 
 (* ---- the result: total, DPOP's values, optimal, accounted *)
@@ -581,7 +607,8 @@ Theorem orch_dpop_stop_result_l P L c inf sched tr e en ag :
   dpop_check P = true -> cons_shaped P = true -> link_ok P L c ->
   let r := Net.run (dpop_proto P) sched in
   transport P L (snd r) (tr ++ [(e, en)]) ->
-  e <> EStopReq -> In (OStop ag) (snd (M_Orch.step c (M_Orch.run c tr) en e)) ->
+  (forall en', ~ In (EStopReq, en') (tr ++ [(e, en)])) ->
+  In (OStop ag) (snd (M_Orch.step c (M_Orch.run c tr) en e)) ->
   let m := M_Orch.run c tr in
   let sg := P_Dpop2.assignment P (fst r) in
   (forall x, In x (tree_ids P) ->
